@@ -53,8 +53,21 @@ def classify(kind, obj, scalar="float64", options=None):
         invoked["n"] += 1
         return orig(self, *a, **k)
 
+    import resource
+    import time as _time
+
+    def _cpu():
+        a, b = resource.getrusage(resource.RUSAGE_SELF), resource.getrusage(resource.RUSAGE_CHILDREN)
+        return a.ru_utime + a.ru_stime + b.ru_utime + b.ru_stime
+
+    t_start, cpu_start = _time.time(), _cpu()
+
     def on_alarm(signum, frame):
-        raise _Timeout()
+        # "hang" = CPU time of this request (generator + finished compiler children) beyond TIME_LIMIT, or 10 x TIME_LIMIT of wall time:
+        # a busy machine stretches wall time, not CPU time, and must not turn a slow build into a verdict
+        if _cpu() - cpu_start > TIME_LIMIT or _time.time() - t_start > 10 * TIME_LIMIT:
+            raise _Timeout()
+        signal.alarm(30)
 
     cache = tempfile.mkdtemp(prefix="jit19_", dir=scratch_root())
     opts = dict(options or {})
@@ -69,7 +82,7 @@ def classify(kind, obj, scalar="float64", options=None):
             jit.compile_expressions([obj], options=opts, cache_dir=cache, cffi_extra_compile_args=["-Werror=implicit-function-declaration"])
         return "accepted", ""
     except _Timeout:
-        return "hang", f"no outcome within {TIME_LIMIT}s"
+        return "hang", f"no outcome within {TIME_LIMIT}s of CPU time / {10 * TIME_LIMIT}s of wall time"
     except BaseException as e:  # noqa: BLE001
         msg = f"{type(e).__name__}: {str(e)}"
         if invoked["n"]:
